@@ -448,7 +448,7 @@ def run(ctx):
 
             it, dom, dec = new_nc(ctx, policy, make_extra(None))
             A = _A(dom, (3, 2))
-            T_, MAXIT, p = 2, 4, 3
+            T_, MAXIT, p = (1, 2, 2) if stop_at is None else (2, 2, 3)
             inst = Instance(c_hyb, dict(r=2, p=p, T=T_, tol=TOL, max_iter=MAXIT, verbose=False, seed=None, column_solver=solver))
             tag = f"hybrid[{solver}] stop={stop_at}"
             st, out = run_guarded(lambda: it.run(f_hyb, [A], bound_self=inst))
